@@ -54,12 +54,23 @@ def feedToks (cfg : LR.Cfg) : List Tok → Except (Option Loc) LR.Cfg
     | .parseError => .error (some t.loc)
     | .panic => .error none
 
+/-- `Program::add_stmts`: one statement at a time (`self.add_stmt(stmt)?`).  When a statement fails, the
+statements before it in the same batch have taken effect (their packets are written, their warnings
+printed): the state reached so far is what the failed run leaves behind. -/
+def addStmtsKeep (env : Env) : PState → List Stmt → PState × Option (Sum (ErrKind × Loc) String)
+  | st, [] => (st, none)
+  | st, s :: rest =>
+    match addStmt env st s with
+    | .ok st' => addStmtsKeep env st' rest
+    | .err e loc => (st, some (.inl (e, loc)))
+    | .panic p => (st, some (.inr p))
+
 def runStmts (env : Env) (ls : LoopSt) : Except FileRun LoopSt :=
   let (stmts, cfg) := ls.cfg.takeResults
-  match addStmts env ls.st stmts with
-  | .ok st => .ok { ls with cfg := cfg, st := st }
-  | .err e loc => .error (finish ls.st (.failure e.cls (errDetail e) loc))
-  | .panic s => .error (finish ls.st (.panic s))
+  match addStmtsKeep env ls.st stmts with
+  | (st, none) => .ok { ls with cfg := cfg, st := st }
+  | (st, some (.inl (e, loc))) => .error (finish st (.failure e.cls (errDetail e) loc))
+  | (st, some (.inr s)) => .error (finish st (.panic s))
 
 /-- the `for (lno, res) in rd.lines().enumerate()` loop -/
 def lineLoop (env : Env) (ls : LoopSt) (lno : Nat) : List Bytes → Except FileRun LoopSt
